@@ -151,6 +151,12 @@ def boundary_cases(binary, r, want):
     return cases
 
 
+def is_minus_log_n(hexw, n):
+    """the log-weight equals -log N (any correctly rounded way of writing it: within 4 ulp)"""
+    w, want = unhex(hexw), -math.log(n)
+    return w == want or abs(w - want) <= 4 * EPS * abs(want)
+
+
 # --------------------------------------------------------------------------- exact comb arithmetic
 
 def comb_count(n, u1, a, b):
@@ -247,8 +253,10 @@ def check_rs(line, meta, h, dq, df, dw, stats):
         j = cp.index(0)
         probs.append(("prop", "copy-not-exact", "output particle %d is not a bit-for-bit copy (state, mean, covariance) of its reported parent %d" % (j, par[j])))
     wl = hexd(-math.log(n))
+    if not all(is_minus_log_n(x, n) for x in wout):
+        probs.append(("prop", "weight-not-minus-log-n", "output log-weight %s, -log N = %s" % ([x for x in wout if not is_minus_log_n(x, n)][0], wl)))
     if any(x != wl for x in wout):
-        probs.append(("prop", "weight-not-minus-log-n", "output log-weight %s, -log N = %s" % ([x for x in wout if x != wl][0], wl)))
+        stats["weights_not_bitwise_minus_log_n"] = stats.get("weights_not_bitwise_minus_log_n", 0) + 1
     if same != "in-same":
         probs.append(("prop", "input-modified", "the particle set passed in was modified"))
     if shape[5] != n or shape[10] != n or shape[0] != n:
@@ -292,7 +300,7 @@ def check_rs(line, meta, h, dq, df, dw, stats):
             dn = unhex(dw.split()[1])
             if abs(dn - neff_h) > ntol * abs(neff_h):
                 probs.append(("corr", "neff-model", "neffLog (Float) %.17g vs implementation %.17g" % (dn, neff_h)))
-            if dw.split()[2] != wl:
+            if not is_minus_log_n(dw.split()[2], n):
                 probs.append(("corr", "weight-model", "model output weight %s vs -log N %s" % (dw.split()[2], wl)))
     return probs
 
@@ -331,8 +339,10 @@ def check_rwp(line, meta, h, d, dq, stats):
     if not (shape[0] == n and shape[5] == n and shape[7] == n and shape[10] == n and shape[9] == n * dimcov and cols == n):
         probs.append(("prop", "output-count", "the result is not a set of N=%d particles: components %d, state columns %d, mean columns %d, covariance columns %d (x%d), weights %d" % (n, shape[0], shape[5], shape[7], shape[9], dimcov, shape[10])))
     wl = hexd(-math.log(n))
-    if any(x != wl for x in wout) or wrows != n:
+    if not all(is_minus_log_n(x, n) for x in wout) or wrows != n:
         probs.append(("prop", "weight-not-minus-log-n", "output log-weights are not all -log N"))
+    if any(x != wl for x in wout):
+        stats["weights_not_bitwise_minus_log_n"] = stats.get("weights_not_bitwise_minus_log_n", 0) + 1
     nneg = sum(1 for q in par if q == -1)
     lead = 0
     while lead < n and par[lead] == -1:
@@ -413,7 +423,7 @@ def check_rwp(line, meta, h, d, dq, stats):
             probs.append(("corr", "layout-model", "model layout (lin, circ, quaternion) = %s, implementation %s" % ((mlin, mcirc, mquat), (shape[1], shape[2], shape[3]))))
         if mids[:mk] != ids[:mk] or mpar[:mk] != par[:mk]:
             probs.append(("corr", "prior-part-model", "fresh part differs from the model"))
-        if mw != list(wout):
+        if len(mw) != len(wout) or not all(is_minus_log_n(x, n) for x in mw):
             probs.append(("corr", "weights-model", "weights differ from the model"))
         if mids == ids:
             stats["rwp_float_model_identical_ids"] = stats.get("rwp_float_model_identical_ids", 0) + 1
